@@ -608,12 +608,18 @@ func parseFuncHeader(rest string) (*funcContract, error) {
 		clo = src[m[4]:m[5]]
 		src = src[:m[4]] + src[m[5]:]
 	}
+	// a function of another (standard library) package: "io.Copy(params) (results)"
+	ext := ""
+	if m := regexp.MustCompile(`^([a-z][A-Za-z0-9_]*)\.([A-Za-z_][A-Za-z0-9_]*)\(`).FindStringSubmatch(src); m != nil {
+		ext = m[1] + "."
+		src = src[len(m[1])+1:]
+	}
 	f, err := parser.ParseFile(token.NewFileSet(), "hdr.go", "package p\nfunc "+src+"\n", 0)
 	if err != nil {
 		return nil, fmt.Errorf("bad func header %q: %v", rest, err)
 	}
 	fd := f.Decls[0].(*ast.FuncDecl)
-	key := fd.Name.Name + clo
+	key := ext + fd.Name.Name + clo
 	if fd.Recv != nil && len(fd.Recv.List) == 1 {
 		rt := exprString(fd.Recv.List[0].Type)
 		if strings.HasPrefix(rt, "*") {
